@@ -50,6 +50,13 @@ def _worker(job):
                     stub_assumptions=[], max_abs=0, wall_s=0)
 
 
+def _child(conn, fn, arg):
+    try:
+        conn.send(fn(arg))
+    finally:
+        conn.close()
+
+
 def _tv_worker(args):
     from . import tv
     names, seed, n = args
@@ -102,35 +109,64 @@ def run_property(prop, tier, procs=16, only=None, tv=True):
     deadline = t0 + getattr(hm, 'BUDGET_S', {}).get(tier, 1500)
     if jobs:
         ctx = mp.get_context('fork')
-        with ctx.Pool(min(procs, max(1, len(jobs)))) as pool:
-            tvres = None
-            if tv and getattr(hm, 'TV_KERNELS', None):
-                tvpool = ctx.Pool(1)
-                tvres = tvpool.apply_async(_tv_worker, ((hm.TV_KERNELS, seed, 40 if tier == 'quick' else 150),))
-            pending = {i: pool.apply_async(_worker, (j,)) for i, j in enumerate(jobs)}
-            while pending:
-                done = [i for i, r in pending.items() if r.ready()]
-                for i in done:
-                    recs.append(pending.pop(i).get())
-                if not pending:
-                    break
-                if time.time() > deadline:
-                    for i in sorted(pending):
-                        j = jobs[i]
-                        recs.append(dict(label=j['label'], prop=prop, harness=list(j['harness']), params=j['params'],
-                                         errors=[], inconclusive=[dict(goal='*', reason='tier budget exhausted')],
-                                         obligations=[], violations=[], known=[], paths=0, queries=0, solver_s=0.0,
-                                         vacuity_witnesses=0, folded=0, kernels={}, forked_sites=[], samples=[],
-                                         assumptions=[], stub_assumptions=[], max_abs=0, wall_s=0))
-                    pool.terminate()
-                    break
-                time.sleep(0.05)
-            if tvres is not None:
-                try:
-                    tv_rec = tvres.get(timeout=max(5, deadline - time.time()))
-                except mp.TimeoutError:
-                    tv_rec = dict(runs=0, mismatches=['translator validation timed out'], kernels=[])
-                tvpool.terminate()
+        tvproc = None
+        tvconn = None
+        if tv and getattr(hm, 'TV_KERNELS', None):
+            tvconn, child = ctx.Pipe(duplex=False)
+            tvproc = ctx.Process(target=_child, args=(child, _tv_worker, (hm.TV_KERNELS, seed, 40 if tier == 'quick' else 150)))
+            tvproc.start()
+            child.close()
+        pending = list(range(len(jobs)))
+        running = {}            # index -> (process, connection, start time, wall limit)
+        nproc = max(1, min(procs, len(jobs)) - (1 if tvproc else 0))
+
+        def blank(j, reason):
+            return dict(label=j['label'], prop=prop, harness=list(j['harness']), params=j['params'], errors=[],
+                        inconclusive=[dict(goal='*', reason=reason)], obligations=[], violations=[], known=[], paths=0, queries=0,
+                        solver_s=0.0, vacuity_witnesses=0, folded=0, kernels={}, forked_sites=[], samples=[], assumptions=[],
+                        stub_assumptions=[], max_abs=0, wall_s=0)
+        while pending or running:
+            now = time.time()
+            while pending and len(running) < nproc and now < deadline:
+                i = pending.pop(0)
+                parent, child = ctx.Pipe(duplex=False)
+                p = ctx.Process(target=_child, args=(child, _worker, jobs[i]))
+                p.start()
+                child.close()
+                limit = jobs[i].get('wall_s', max(3 * jobs[i].get('timeout_s', 120), 240))
+                if os.environ.get('VERIF_JOB_WALL'):
+                    limit = float(os.environ['VERIF_JOB_WALL'])
+                running[i] = (p, parent, now, limit)
+            for i in list(running):
+                p, conn, st, limit = running[i]
+                if conn.poll():
+                    try:
+                        recs.append(conn.recv())
+                    except EOFError:
+                        recs.append(dict(blank(jobs[i], 'worker died'), errors=['worker process died without a result']))
+                    p.join()
+                    del running[i]
+                elif not p.is_alive():
+                    recs.append(dict(blank(jobs[i], 'worker died'), errors=['worker process died without a result (exit %s)' % p.exitcode]))
+                    del running[i]
+                elif now - st > limit or now > deadline:
+                    p.terminate()
+                    p.join()
+                    recs.append(blank(jobs[i], 'job wall-clock limit %ds exceeded (encoding or solving too slow)' % limit
+                                      if now <= deadline else 'tier budget exhausted'))
+                    del running[i]
+            if now > deadline and pending:
+                for i in pending:
+                    recs.append(blank(jobs[i], 'tier budget exhausted'))
+                pending = []
+            time.sleep(0.01)
+        if tvproc is not None:
+            if tvconn.poll(max(5, deadline - time.time())):
+                tv_rec = tvconn.recv()
+            else:
+                tv_rec = dict(runs=0, mismatches=['translator validation timed out'], kernels=[])
+                tvproc.terminate()
+            tvproc.join()
     claimed = {j['label']: j.get('claimed', True) for j in jobs}
     return report(prop, tier, seed, recs, claimed, tv_rec, pre, setup_errors, hm, time.time() - t0)
 
